@@ -26,9 +26,7 @@ def _emit(obj):
 
 def parse_call_args(message, names):
     """Extract the concrete argument vector from a CrossHair message 'when calling h(1, True)'."""
-    m = re.search(r'when calling (h\(.*\))(?: \(which |$)', message, re.S)
-    if not m:
-        m = re.search(r'when calling (h\(.*?\))', message, re.S)
+    m = re.search(r'when calling (h\([^()]*\))', message, re.S)
     if not m:
         return None
     try:
@@ -90,6 +88,11 @@ def main():
         res['functions'] = sorted(entered)
         if vectors:
             res['sample'] = {'args': vectors[len(vectors) // 2], 'input': _safe_describe(h, vectors[len(vectors) // 2])}
+        if native_fail is not None and native_fail['failure'].startswith('harness body raised'):
+            res.update(status='error', error=native_fail['failure'] + ' on ' + json.dumps(native_fail['args']))
+            res['wall_s'] = time.time() - t0
+            _emit(res)
+            return
         if native_fail is not None:
             res.update(status='violation', via='native', counterexample=native_fail)
             res['wall_s'] = time.time() - t0
@@ -136,7 +139,23 @@ def main():
                     out.append((m.state.name, m.message))
             return out, stats
 
+        spy_stacks = None
+        if os.environ.get('VP_SPY_REALIZE') == '1':
+            # debugging aid: where do symbolic strings get realised (value-by-value enumeration)?
+            from crosshair.libimpl import builtinslib as _bl
+            spy_stacks = collections.Counter()
+            _orig_realize = _bl.LazyIntSymbolicStr.__ch_realize__
+
+            def _spy(self):
+                st = traceback.extract_stack(limit=16)
+                key = ' <- '.join(f'{f.filename.split("/")[-1]}:{f.lineno}:{f.name}' for f in reversed(st[:-1])
+                                  if 'site-packages/crosshair' not in f.filename or 'libimpl' in f.filename)[:700]
+                spy_stacks[key] += 1
+                return _orig_realize(self)
+            _bl.LazyIntSymbolicStr.__ch_realize__ = _spy
         msgs, stats = run(False)
+        if spy_stacks is not None:
+            res['realize_sites'] = spy_stacks.most_common(6)
         res['paths'] = int(stats.get('num_paths', 0))
         res['reached'] = common._State.reached
         res['solver_queries'] = zstat['queries']
@@ -154,7 +173,9 @@ def main():
                     res.update(status='engine_mismatch', error=f'cannot use counterexample: {m[:300]}')
                 else:
                     r = h.native(a)
-                    if r != '':
+                    if r.startswith('harness body raised'):
+                        res.update(status='error', error=r + ' on ' + json.dumps(a))
+                    elif r != '':
                         res.update(status='violation', via='solver',
                                    counterexample={'args': a, 'failure': r, 'input': _safe_describe(h, a)})
                     else:
